@@ -107,3 +107,29 @@ Proof.
   { apply St; rewrite R; lra. }
   setoid_replace (fp - g * t + g * t) with fp in Goal1 by ring. lra.
 Qed.
+
+(* The cubic as an explicit weighted sum of its four data: weights -Pm, P0, P1, -P2 with Pm, P0, P1, P2 >= 0,
+   total variation <= 3/2, sum 1 and first moment t.  (Used for the transfer to the reals in Proofs/C14_Real.v.) *)
+Lemma HL_weights xm x0 x1 x2 t : xm < x0 -> x0 < x1 -> x1 < x2 -> x0 <= t <= x1 ->
+  exists Pm P0 P1 P2, 0 <= Pm /\ 0 <= P0 /\ 0 <= P1 /\ 0 <= P2 /\ Pm + P0 + P1 + P2 <= 3 # 2 /\
+    - Pm + P0 + P1 - P2 == 1 /\ - Pm * xm + P0 * x0 + P1 * x1 - P2 * x2 == t /\
+    forall dm d0 d1 d2, HL xm x0 x1 x2 dm d0 d1 d2 t == - Pm * dm + P0 * d0 + P1 * d1 - P2 * d2.
+Proof.
+  intros Hm H01 H12 [Ht0 Ht1].
+  set (h := x1 - x0). assert (Hh : 0 < h) by (unfold h; lra).
+  set (u := (t - x0) / h).
+  assert (Hu : 0 <= u <= 1).
+  { unfold u. split; [apply Qle_shift_div_l|apply Qle_shift_div_r]; try exact Hh; unfold h; lra. }
+  set (al := h / (x1 - xm)). set (be := h / (x2 - x0)).
+  assert (Hal : 0 <= al <= 1).
+  { unfold al. split; [apply Qle_shift_div_l|apply Qle_shift_div_r]; unfold h; lra. }
+  assert (Hbe : 0 <= be <= 1).
+  { unfold be. split; [apply Qle_shift_div_l|apply Qle_shift_div_r]; unfold h; lra. }
+  destruct (general_signs u al be Hu Hal Hbe) as (S1 & S2 & S3 & S4 & S5).
+  exists (al * (u * (1 - u) * (1 - u))), ((1 + 2 * u) * ((1 - u) * (1 - u)) + be * (u * u * (1 - u))),
+         (u * u * (3 - 2 * u) + al * (u * (1 - u) * (1 - u))), (be * (u * u * (1 - u))).
+  repeat split; try assumption.
+  - unfold al, be, u, h. field. repeat split; intro F; lra.
+  - unfold al, be, u, h. field. repeat split; intro F; lra.
+  - intros dm d0 d1 d2. rewrite HL_raw. unfold HLraw, al, be, u, h. field. repeat split; intro F; lra.
+Qed.
